@@ -339,6 +339,41 @@ func (c *pctx) expr(t *rapid.T, need int) (string, int) {
 			}})
 		}
 	}
+	// forwarding a 0-ary callable (typically a filter parameter) with a suffix
+	// as an argument of another call
+	var nullary []string
+	for _, f := range c.funcs {
+		if len(f.Params) == 0 {
+			nullary = append(nullary, f.Name)
+		}
+	}
+	if len(nullary) > 0 {
+		alts = append(alts, alt{6, func() (string, int) {
+			c.feat("forwarded-arg")
+			fwd := func() string {
+				return pick(t, "fwdname", nullary) + pick(t, "fwdsuffix", []string{"", "[]", ".a", "[0]", "?", "[]?", "[1:]", ".a?", "[\"b\"]", ".a[]", "[]?.a?"})
+			}
+			var withParams []FuncSig
+			for _, f := range c.funcs {
+				if len(f.Params) > 0 {
+					withParams = append(withParams, f)
+				}
+			}
+			if len(withParams) > 0 && rapid.Bool().Draw(t, "userfn") {
+				f := withParams[rapid.IntRange(0, len(withParams)-1).Draw(t, "which")]
+				args := make([]string, len(f.Params))
+				for i := range args {
+					if rapid.IntRange(0, 2).Draw(t, "fwd") > 0 {
+						args[i] = fwd()
+					} else {
+						args[i] = c.sub(t, pPipe)
+					}
+				}
+				return f.Name + "(" + strings.Join(args, "; ") + ")", pPost
+			}
+			return fmt.Sprintf(pick(t, "fwdbuiltin", []string{"map(%s)", "first(%s)", "[limit(2; %s)]", "select(%s)", "isempty(%s)", "[%s]", "path(%s)", "[recurse(%s; . != null)]?", "any(%s; .)", "with_entries(%s)?", "[.[]? | %s]", "last(%s)", "nth(1; %s)", "(%s) |= 1", "del(%s)", "reduce %s as $v (0; . + 1)", "[foreach %s as $v (0; . + 1)]", "try %s catch .", "(%s) // 0", "{a: %s}", "\"\\(%s)\""}), fwd()), pPost
+		}})
+	}
 	if c.conf.Builtins {
 		alts = append(alts, alt{8, func() (string, int) { return c.builtin(t), pPost }})
 	}
@@ -601,7 +636,14 @@ func (c *pctx) PathExpr(t *rapid.T, depth int) string {
 	if depth <= 0 {
 		return pick(t, "pathatom", []string{".", ".a", ".b", ".[0]", ".[1]", ".[]", ".[-1]", ".a[0]", ".[1:]", ".[:1]", ".a.b", ".[]?", "..", ".c", ".[\"a\"]", ".[0:2]", ".a[]"})
 	}
-	switch rapid.IntRange(0, 17).Draw(t, "pathkind") {
+	switch rapid.IntRange(0, 19).Draw(t, "pathkind") {
+	case 18, 19:
+		// destructuring binds around navigation (the patterns index their
+		// source with path tracking off)
+		src := pick(t, "bindsrc", []string{".", ".", ".a", ".[0]", ".[]?", "(.a, .b)", ".c"})
+		pat := pick(t, "bindpat", []string{"[$a]", "[$a, $b]", "{$a}", "{a: $a}", "{$a, $b}", "[[$a]]", "{a: [$a]}", "{(\"a\",\"b\"): $a}", "$a", "[$a] ?// $a", "{$a} ?// [$a]"})
+		body := pick(t, "bindbody", []string{".[1]?", ".a?", ".[0]?", c.PathExpr(t, depth-1), "$a.x?", "$a[0]?", ".[$a]?", "getpath([$a])?", "(.a?, .[0]?)", ".[]?", "$a | .[0]?", "select($a != null) | .a?", ".b?"})
+		return "(" + src + " as " + pat + " | " + body + ")"
 	case 0, 1, 2:
 		return c.PathExpr(t, 0)
 	case 3, 4:
